@@ -1,6 +1,7 @@
 import RTV.Drv.Proto
 import RTV.Model.NumCfg
 import RTV.Model.Spell
+import RTV.Model.SpellEu
 import RTV.Gen.NumDigits
 import RTV.Gen.CharTables
 /-! Driver handlers for L3 `Dec` and L4 `Num` (C03, C04). Every operation name carries the prefix `n.`
@@ -17,6 +18,7 @@ import RTV.Gen.CharTables
   rcn <culture> <cps>           (resolve_composite_number)        -> n
   nts <tok cps>...              (English normalize_token_set)     -> tok;tok;...
   spell <n> <andHundred> <andFinal> <hyphen> <ord>                -> text cps | tok;tok;...
+  spelleu <es|fr|pt|de|it|nl> <n>  (n < 1000)                    -> text cps | tok;tok;...
   cjk <zh|ja> <cps>             (CJK get_int_value core)          -> n
   cfg <culture>                                                   -> decSep nonDecSep multiDec nonStd lf -/
 namespace RTV.Drv.NumD
@@ -129,6 +131,16 @@ def hSpell : Handler
     showCps (joinPieces ps) ++ "|" ++ ";".intercalate (ps.map fun p => showCps p.1)
   | _ => "bad-op"
 
+def hSpellEu : Handler
+  | [cu, n] =>
+    let sp : Option EuSpell := match cu with
+      | "es" => some esSpell | "fr" => some frSpell | "pt" => some ptSpell
+      | "de" => some deSpell | "it" => some itSpell | "nl" => some nlSpell | _ => none
+    match sp with
+    | some s => let r := spellEu s (parseNat n); showCps r.1 ++ "|" ++ ";".intercalate (r.2.map showCps)
+    | none => "bad-culture"
+  | _ => "bad-op"
+
 def hCjk : Handler
   | [w, s] => toString (cjkIntValue pyDigits (if w == "ja" then jaCjk else zhCjk) (parseCps s))
   | _ => "bad-op"
@@ -153,6 +165,7 @@ def dispatch (op : String) (args : List String) : Option String :=
   | "n.rcn" => some (hRcn args)
   | "n.nts" => some (hNts args)
   | "n.spell" => some (hSpell args)
+  | "n.spelleu" => some (hSpellEu args)
   | "n.cjk" => some (hCjk args)
   | "n.cfg" => some (hCfg args)
   | _ => none
